@@ -56,7 +56,7 @@ def debug_dir():
 class Impl:
     """the real protocol with recording doubles"""
 
-    def __init__(self, acts, debug=False):
+    def __init__(self, acts, debug=False, raw=False):
         from twisted.test import proto_helpers
         from txtorcon import TorControlProtocol
         self.log = []
@@ -90,6 +90,16 @@ class Impl:
                 os.chdir(here)
         self.proto.makeConnection(self.tr)
         self.dead = False
+        self.raw = raw
+        if raw:
+            # the session starts at connectionMade: the protocol's own PROTOCOLINFO / AUTHENTICATE / bootstrap commands are part of
+            # it (`ghost` ops), and whether the connection became ready is observed
+            self.connect_writes = [x for x in self.log]
+            self.log = []
+            self.ready = []
+            self.proto.post_bootstrap.addCallbacks(lambda r: self.ready.append('ready-ok'), lambda f: self.ready.append('ready-failed') and None)
+            self.decoy = None
+            return
         # bootstrap through the public path (NULL authentication)
         feed = self.proto.dataReceived
         feed(b'250-PROTOCOLINFO 1\r\n250-AUTH METHODS=NULL\r\n250-VERSION Tor="0.4.8.0"\r\n250 OK\r\n')
@@ -116,6 +126,8 @@ class Impl:
                                                                lambda f: self.decoy_result.append(('fail', str(f.value))))
 
     def decoy_tick(self):
+        if self.decoy is None:
+            return
         n = len(self.decoy_lines)
         # mid lines, and now and then a data block, so that every accumulator of the line machine is used
         if n % 3 == 2:
@@ -127,6 +139,8 @@ class Impl:
 
     def decoy_finish(self):
         """-> [] when the other connection's command got exactly its own reply, else a description"""
+        if self.decoy is None:
+            return []
         try:
             self.decoy.dataReceived(b'250 OK\r\n')
         except Exception as e:
@@ -284,6 +298,8 @@ class Impl:
                 self.armed = nxt if (nxt is not None and nxt[0] == 'resubmit') else None
                 self.lose(op[1])
                 self.armed = None
+            elif k == 'ghost':
+                pass            # a command the protocol submits itself (at connectionMade, or from inside the callback of its predecessor)
             elif k == 'whendisc':
                 self.whendisc(op)
             elif k == 'ondisc':
@@ -310,8 +326,10 @@ def fix_ev(outs, names_by_payload=None):
 
 def run_impl(case):
     from harness.common import watchdog, Hang
-    im = Impl(case.get('acts', {}), debug=bool(case.get('debug')))
+    im = Impl(case.get('acts', {}), debug=bool(case.get('debug')), raw=bool(case.get('raw')))
     groups = []
+    if case.get('raw'):
+        groups.append(('ghost', list(im.connect_writes)))
     for op in case['ops']:
         if op[0] == 'nested':
             im.nested.setdefault(op[1], []).append(op[2])
@@ -325,6 +343,8 @@ def run_impl(case):
     bad = im.decoy_finish()
     if bad:
         groups.append(('other-connection', bad))
+    if case.get('raw'):
+        groups.append(('ready', list(im.ready)))
     return groups
 
 
@@ -334,6 +354,8 @@ def canon(groups):
     out = []
     for kind, outs in groups:
         kind = 'rx' if kind in ('bytes', 'tl') else kind
+        if kind == 'ghost' and out:
+            kind = 'resubmit'
         if kind in ('resubmit', 'nested', 'relost'):
             # made from inside a callback: what it causes belongs to the group of the op before it
             if kind == 'relost' and '#relost' not in outs and not (out and '#relost' in out[-1][1]):
@@ -370,6 +392,8 @@ def act_word(lid, act):
 
 def op_line(op):
     k = op[0]
+    if k == 'ghost':
+        return 'submit %d %s 0' % (op[1], hexs(op[2]))
     if k in ('submit', 'resubmit'):
         return 'submit %d %s %d' % (op[1], hexs(op[2]), 1 if op[3] else 0)
     if k == 'bytes':
@@ -666,8 +690,104 @@ def gen_session(rng, *, n_steps=30, events=False, listeners=False, loss=False, a
     return {'acts': acts, 'debug': debug, 'ops': ops, 'tls': {str(i): tls_by_op.get(i, []) for i, op in enumerate(ops) if op[0] == 'bytes'}}
 
 
+AUTH_CHAIN = [
+    # (command the protocol sends itself, the reply the fake Tor gives it as typed lines)
+    ('PROTOCOLINFO 1', [['mid', 250, 'PROTOCOLINFO 1'], ['mid', 250, 'AUTH METHODS=NULL'], ['mid', 250, 'VERSION Tor="0.4.8.0"'], ['fin', 250, 'OK']]),
+    ('AUTHENTICATE', [['fin', 250, 'OK']]),
+    ('GETINFO signal/names', [['mid', 250, 'signal/names=RELOAD HUP NEWNYM'], ['fin', 250, 'OK']]),
+    ('GETINFO version', [['mid', 250, 'version=0.4.8.0'], ['fin', 250, 'OK']]),
+    ('GETINFO events/names', [['mid', 250, 'events/names=' + ' '.join(EVENT_NAMES)], ['fin', 250, 'OK']]),
+    ('USEFEATURE EXTENDED_EVENTS', [['fin', 250, 'OK']]),
+]
+
+
+def gen_auth_loss(rng):
+    """a session that starts at connectionMade (NULL authentication): the protocol's own commands are `ghost` ops — the first at
+    connectionMade, each next one from inside the result callback of its predecessor — the application queues commands of its own
+    at any point, and the connection is lost after 0..6 of the protocol's commands were answered (or never)"""
+    im = Impl({}, raw=True)
+    ops = [['ghost', 901, AUTH_CHAIN[0][0]]]
+    tls_by_op = {}
+    written = ['ghost:0']        # who wrote each command line, in wire order ('ghost:k' | 'user')
+    pending = []                 # submitted and not yet written, in submission order
+    answered = 0
+    next_ghost = 1
+    uid = [0]
+    n_answer = rng.choice([0, 1, 1, 2, 2, 3, 4, 5, 6, 6])
+    lost = False
+
+    def do(op):
+        ops.append(op)
+        outs = im.do(op)
+        return outs
+
+    def user_submit():
+        uid[0] += 1
+        outs = do(['submit', uid[0], rng.choice(SUBMIT_TEXTS), rng.random() < 0.3])
+        if any(o.startswith('write ') for o in outs):
+            written.append('user')
+        else:
+            pending.append('user')
+    for _ in range(rng.randint(0, 2)):
+        user_submit()
+    steps = 0
+    while answered < len(written) and steps < 30:
+        steps += 1
+        if rng.random() < 0.3:
+            user_submit()
+            continue
+        who = written[answered]
+        ghost_k = int(who.split(':')[1]) if who.startswith('ghost') else None
+        if ghost_k is not None and ghost_k >= n_answer:
+            break                                   # this one stays unanswered: the loss comes first
+        tls = AUTH_CHAIN[ghost_k][1] if ghost_k is not None else [['fin', rng.choice([250, 250, 514, 510]), rng.choice(['OK', 'Authentication required'])]]
+        data = ''.join(render_tl(t) + '\r\n' for t in tls)
+        answered += 1
+        # segmentation: whole, or cut in two
+        cuts = [len(data)] if rng.random() < 0.6 else sorted({rng.randint(1, len(data)), len(data)})
+        start = 0
+        for ci, end in enumerate(cuts):
+            chunk = data[start:end]
+            done_lines = data[:end].count('\n') - data[:start].count('\n')
+            consumed = sum(len(v) for v in tls_by_op.values())
+            tls_by_op[len(ops)] = tls[data[:start].count('\n'):data[:end].count('\n')]
+            before = len(im.log)
+            outs = do(['bytes', chunk])
+            start = end
+        # what that reply set in motion: the protocol's next command joins the queue (from inside the callback), and the queue
+        # releases its head — commands leave in the order they were submitted
+        new_writes = sum(1 for o in outs if o.startswith('write '))
+        if ghost_k is not None and ghost_k + 1 < len(AUTH_CHAIN):
+            do(['ghost', 901 + ghost_k + 1, AUTH_CHAIN[ghost_k + 1][0]])
+            pending.append('ghost:%d' % (ghost_k + 1))
+        for _ in range(new_writes):
+            if pending:
+                written.append(pending.pop(0))
+    ready_before = list(im.ready)
+    if rng.random() < 0.9:
+        lost = True
+        for _ in range(rng.randint(0, 2)):
+            do([rng.choice(['whendisc', 'ondisc']), 9000 + len(ops)])
+        do(['lost', rng.random() < 0.5])
+        for _ in range(rng.randint(0, 3)):
+            if rng.random() < 0.6:
+                user_submit()
+            else:
+                do(['whendisc', 9000 + len(ops)])
+    # the statement about readiness: ready exactly once — success only after all of the protocol's own commands were answered
+    # with 250, failure when the connection went first
+    all_ok = n_answer >= len(AUTH_CHAIN) and ready_before == ['ready-ok']
+    expect_ready = ['ready-ok'] if ready_before == ['ready-ok'] else (['ready-failed'] if lost else [])
+    return {'acts': {}, 'debug': False, 'raw': True, 'ready': expect_ready, 'ops': ops,
+            'tls': {str(i): tls_by_op.get(i, []) for i, op in enumerate(ops) if op[0] == 'bytes'}}
+
+
 def normalise_case(case):
     """JSON round trip turns int keys into strings; make `tls` indexable by op index"""
     tls = case.get('tls', {})
-    return {'acts': case.get('acts', {}), 'debug': bool(case.get('debug')), 'ops': case['ops'],
-            'tls': {int(k): v for k, v in tls.items()}}
+    out = {'acts': case.get('acts', {}), 'debug': bool(case.get('debug')), 'ops': case['ops'],
+           'tls': {int(k): v for k, v in tls.items()}}
+    if case.get('raw'):
+        out['raw'] = True
+        out['ready'] = case.get('ready')
+    return out
